@@ -226,6 +226,10 @@ def workload(ctx, lentil):
             a = a + 1j * rng.normal(size=shape)
         if not np.any(a):
             a[0, 0] = 1
+        if i % 7 == 6 and not np.iscomplexobj(a):
+            a = np.round(a * 5).astype(np.int64)            # integer-typed amplitude maps (e.g. binary masks)
+            if not np.any(a):
+                a[0, 0] = 1
         p = float(np.exp(rng.uniform(np.log(1e-3), np.log(1e6)))) if rng.random() < 0.8 else 1
         kindp = i % 5
         if kindp == 3:
